@@ -85,13 +85,19 @@ def build_translator():
     return rc == 0, log
 
 
+# The translator's source importer (go/importer "source") runs cgo for packages such as net and
+# os/user and leaves its object files in the temp directory on every run; type-checking needs none
+# of that, the output is byte-identical with cgo off.
+TRENV = dict(GOENV, CGO_ENABLED="0")
+
+
 def run_translator():
     ok, log = build_translator()
     if not ok:
         return False, "translator build failed:\n" + log
     os.makedirs(os.path.join(COQ, "theories", "Gen"), exist_ok=True)
     rc, log = sh([os.path.join(BUILD, "translator"), "-repo", REPO, "-out", os.path.join(COQ, "theories", "Gen", "Gen.v"),
-                  "-manifest", os.path.join(BUILD, "gen_manifest.json")], env=GOENV, timeout=300)
+                  "-manifest", os.path.join(BUILD, "gen_manifest.json")], env=TRENV, timeout=300)
     return rc == 0, log
 
 
@@ -104,7 +110,7 @@ def run_translator2():
     tmp = os.path.join(BUILD, "gen_v1_scratch.v")
     rc, log = sh([os.path.join(BUILD, "translator"), "-repo", REPO, "-out", tmp,
                   "-out2", os.path.join(COQ, "theories", "Gen", "Gen2.v"),
-                  "-manifest2", os.path.join(BUILD, "gen2_manifest.json")], env=GOENV, timeout=300)
+                  "-manifest2", os.path.join(BUILD, "gen2_manifest.json")], env=TRENV, timeout=300)
     return rc == 0, log
 
 
